@@ -183,7 +183,7 @@ func solveOnce(vc *VC, o *Obligation, dir string, idx int, timeoutS, seed int, n
 		race = append(race, entry{sp, seed})
 	}
 	if only == "" {
-		extra := 3
+		extra := 5
 		if vc.hasFloatDefs(o) && abstractFloats != 1 {
 			extra = 1
 		}
